@@ -569,6 +569,8 @@ class Angle(object):
 
         if self._deg < 0:
             self._deg = 360.0 - abs(self._deg)
+            if self._deg >= 360.0:  # Tiny negative values round up to 360
+                self._deg = 0.0
         return self
 
     def __eq__(self, b):
